@@ -257,6 +257,7 @@ class _Tokenizer:
 
         cur_span_symbol = None
         cur_span_start_text = None
+        cur_span_start_pos = None
         cur_span_lines = None
         span_body_matcher = None
 
@@ -283,7 +284,7 @@ class _Tokenizer:
                         yield _Token(
                             token_name,
                             value,
-                            prev_end_pos, new_end_pos,
+                            cur_span_start_pos, new_end_pos,
                         )
                         prev_end_pos = new_end_pos
                         cur_span_symbol = None
@@ -306,12 +307,17 @@ class _Tokenizer:
                         cur_span_symbol = token_name
                         cur_span_start_text = text_line
                         cur_span_lines = []
+                        if prev_end_pos.coords != (line_id, col + 1):
+                            prev_end_pos = SrcPos(src_name, line_id, col + 1)
+                        cur_span_start_pos = prev_end_pos
                     else:
                         token_name = self.synonyms.get(token_name, token_name)
                         keyword_token = self.keywords.get((token_name, value))
                         if keyword_token is not None:
                             # this token is not a word, but keyword
                             token_name = keyword_token
+                        if prev_end_pos.coords != (line_id, col + 1):
+                            prev_end_pos = SrcPos(src_name, line_id, col + 1)
                         new_end_pos = SrcPos(src_name, line_id, match.end() + 1)
                         yield _Token(
                             token_name,
